@@ -235,3 +235,21 @@ def mpo_to_matrix(mpo, left=None, right=None):
 
 def is_hermitian(M, tol=1e-10):
     return np.linalg.norm(M - M.conj().T) <= tol * max(1.0, np.linalg.norm(M))
+
+
+def termlist_term_matrix(sites, term):
+    """Matrix of a term as listed by `to_TermList()` of coupling terms: on-site Jordan-Wigner factors are written out in the
+    operator names ('Cd JW'), but the string on the sites *between* the listed sites is implied: a JW operator sits on a gap site
+    iff the operators to the right of it are in total fermionic (odd number flagged need_JW)."""
+    term = sorted(term, key=lambda t: t[1])
+    need = [sites[i].op_needs_JW(n) for n, i in term]
+    ops = {}
+    for k, (n, i) in enumerate(term):
+        if i in ops:
+            ops[i] = ops[i] @ op_dense(sites[i], n)
+        else:
+            ops[i] = op_dense(sites[i], n)
+        if k > 0 and sum(need[k:]) % 2 == 1:
+            for g in range(term[k - 1][1] + 1, i):
+                ops[g] = np.diag(jw_diag(sites[g]))
+    return op_on_chain(sites, ops)
